@@ -116,8 +116,9 @@ def _chunk(item):
                 elif le != (lt or eq) or ge != (gt or eq) or ne != (not eq):
                     bad("cmp", sa, sb, "operator identities", res)
                 else:
-                    # most lenient reading of the tolerance: 1e-20 in the unit of the larger prefix
-                    tol = TOL * Fraction(10) ** max(ea, eb)
+                    # most lenient of the plausible readings of "20 decimal places in their SI unit" (readme): 1e-20 in
+                    # the base unit, or in the unit of either operand's prefix - whichever is largest
+                    tol = TOL * Fraction(10) ** max(0, ea, eb)
                     d = va - vb
                     if abs(d) > tol and (lt != (d < 0) or gt != (d > 0)):
                         bad("cmp", sa, sb, "order disagrees with exact values", res, "lt" if d < 0 else "gt")
